@@ -119,6 +119,9 @@ Proof.
     now rewrite (map_nth Some bs 0 i).
 Qed.
 
+Lemma holds_get d a bs x : holds d a bs -> a <= x < a + lenZ bs -> dget d x = Some (nth (Z.to_nat (x - a)) bs 0).
+Proof. intros H Hx. specialize (H (Z.to_nat (x - a))). replace x with (a + Z.of_nat (Z.to_nat (x - a))) at 1 by lia. apply H. unfold lenZ in Hx. lia. Qed.
+
 Lemma holds_known d a bs : holds d a bs -> known (drd d a (length bs)) = Some bs.
 Proof. intros H. apply known_some. now apply holds_drd. Qed.
 
@@ -2418,8 +2421,8 @@ Proof.
                       = over (absb d (c :: r)) (sb + bw - base) (firstn (Z.to_nat btw) data) x).
       { destruct (Z.eq_dec m' 0) as [Z0|NZ].
         - rewrite Z0. cbn [Z.to_nat firstn]. apply over_nil.
-        - assert (Hfull : sb + bw - base + btw = cs) by (unfold m', bw' in *; lia).
-          unfold over at 1. rewrite Hfull. destruct (Z.leb_spec cs x); [lia|]. reflexivity. }
+        - assert (Hfull : cs <= sb + bw - base + btw) by (unfold m', bw' in *; lia).
+          unfold over at 1. destruct (Z.leb_spec (sb + bw - base + btw) x); [lia|]. reflexivity. }
       rewrite Outer. unfold over. destruct ((sb + bw - base <=? x) && (x <? sb + bw - base + lenZ (firstn (Z.to_nat btw) data))); auto.
       now rewrite absb_first by (fold cs; lia).
     + (* a byte of a later chunk *)
@@ -2429,23 +2432,14 @@ Proof.
         destruct (phys r (x - cs)) as [a|] eqn:Pa; auto. apply Fr1.
         destruct (phys_in r (x - cs) a (Forall_chunk_sizes _ _ Cr) ltac:(lia) Pa) as (c' & I' & B').
         intros Hx'. apply (pdisj_in c r PDall c' I' a Hx'). unfold in_ext, HDR in *. pose proof (csize_addr c'). lia. }
-      unfold over at 1 3.
+      assert (Inner : over (absb d (c :: r)) (sb + bw - base) (firstn (Z.to_nat btw) data) x = absb d (c :: r) x).
+      { unfold over. rewrite Lb. destruct (Z.leb_spec (sb + bw - base) x), (Z.ltb_spec x (sb + bw - base + btw)); cbn [andb]; try reflexivity.
+        exfalso. assert (0 < btw) by lia. specialize (Hfit H1). specialize (Hso H1). lia. }
+      unfold over at 1 2. rewrite Inner, Eold.
       set (L' := lenZ (firstn (Z.to_nat m') (skipn (Z.to_nat btw) data))).
-      assert (HL' : 0 <= L' <= m') by (unfold L'; pose proof (lenZ_firstn_le (skipn (Z.to_nat btw) data) (Z.to_nat m')); pose proof (lenZ_nonneg (firstn (Z.to_nat m') (skipn (Z.to_nat btw) data))); lia).
-      destruct (Z.eq_dec m' 0) as [Z0|NZ].
-      * assert (L' = 0) by lia. rewrite H.
-        destruct (Z.leb_spec (sb + (bw + btw) - (base + cs)) (x - cs)), (Z.ltb_spec (x - cs) (sb + (bw + btw) - (base + cs) + 0)); cbn [andb]; try lia;
-        destruct (Z.leb_spec (sb + bw - base + btw) x), (Z.ltb_spec x (sb + bw - base + btw + 0)); cbn [andb]; try lia;
-        rewrite Eold; unfold over; rewrite Lb;
-        destruct (Z.leb_spec (sb + bw - base) x), (Z.ltb_spec x (sb + bw - base + btw)); cbn [andb]; try lia; try reflexivity;
-        exfalso; unfold bw' in *; lia.
-      * assert (Hfull : sb + bw - base + btw = cs) by (unfold m', bw' in *; lia).
-        replace (sb + (bw + btw) - (base + cs)) with 0 by lia. rewrite Hfull.
-        destruct (Z.leb_spec 0 (x - cs)), (Z.ltb_spec (x - cs) (0 + L')); cbn [andb]; try lia;
-        destruct (Z.leb_spec cs x), (Z.ltb_spec x (cs + L')); cbn [andb]; try lia.
-        -- do 2 f_equal. lia.
-        -- rewrite Eold. unfold over. rewrite Lb.
-           destruct (Z.leb_spec (sb + bw - base) x), (Z.ltb_spec x (sb + bw - base + btw)); cbn [andb]; try lia; reflexivity. }
+      destruct (Z.leb_spec (sb + (bw + btw) - (base + cs)) (x - cs)), (Z.ltb_spec (x - cs) (sb + (bw + btw) - (base + cs) + L')); cbn [andb];
+      destruct (Z.leb_spec (sb + bw - base + btw) x), (Z.ltb_spec x (sb + bw - base + btw + L')); cbn [andb]; try lia; try reflexivity.
+      do 2 f_equal. lia. }
     (* the cases of the loop body *)
     assert (NoOp : bw = bw' ->
               exists d', wblock_loop cf fa r d sb eb (eb - sb) (base + cs) bw data
@@ -2472,14 +2466,276 @@ Proof.
     assert (Lf : lenZ (firstn (Z.to_nat btw1) data) = btw1) by (apply lenZ_firstn_ge; lia).
     assert (Fr1 : frame d d1 (in_ext c)).
     { intros x Hx. apply F1; unfold in_ext in Hx; unfold HDR in *; lia. }
-    apply (Cont d1 btw1); try lia; auto.
-    + unfold bw'. lia.
-    + constructor; [exact C1|]. rewrite Forall_forall in *. intros c' I'. apply (chunk_at_frame d d1 c' (in_ext c)); auto.
-      intros x Hx Hx'. exact (pdisj_in c r PDall c' I' x Hx' Hx).
-    + intros x Hx. unfold over. rewrite Lf. replace (sb + bw - base) with so by lia.
+    assert (A0 : 0 <= btw1) by lia.
+    assert (A1 : bw + btw1 = bw') by (unfold bw'; lia).
+    assert (A2 : 0 < btw1 -> Z.max 0 (sb - base) + btw1 <= cs) by lia.
+    assert (A3 : 0 < btw1 -> sb + bw - base = Z.max 0 (sb - base)) by lia.
+    assert (A4 : Forall (chunk_at d1) (c :: r)).
+    { constructor; [exact C1|]. rewrite Forall_forall in *. intros c' I'. apply (chunk_at_frame d d1 c' (in_ext c)); auto.
+      intros x Hx Hx'. exact (pdisj_in c r PDall c' I' x Hx' Hx). }
+    assert (A5 : forall x, 0 <= x < cs -> dget d1 (cstart c + HDR + x) = over (fun y => dget d (cstart c + HDR + y)) (sb + bw - base) (firstn (Z.to_nat btw1) data) x).
+    { intros x Hx. unfold over. rewrite Lf. replace (sb + bw - base) with so by lia.
       destruct (Z.leb_spec so x), (Z.ltb_spec x (so + btw1)); cbn [andb].
       * specialize (H1 (Z.to_nat (x - so))). rewrite <- H1 by (unfold lenZ in Lf; lia). f_equal. unfold HDR. lia.
       * apply F1; unfold HDR in *; lia.
       * apply F1; unfold HDR in *; lia.
+      * lia. }
+    exact (Cont d1 btw1 A0 A1 A2 A3 A4 Fr1 A5).
+Qed.
+
+(* ------------------------------------------------------------------ ADF_Write_Block_Data *)
+(* the logical bytes after a chunk c' holding the bytes bs at offset so was appended *)
+Lemma grown_abs_data d dg cs c' so (bs : list Z) : sizes_pos cs -> 0 < csize c' -> 0 <= so -> so + lenZ bs <= csize c' ->
+  holds dg (cstart c' + HDR + so) bs ->
+  (forall x a, 0 <= x -> phys cs x = Some a -> dget dg a = dget d a) ->
+  forall x v, 0 <= x -> over (absb d cs) (cap_of cs + so) bs x = Some v -> absb dg (cs ++ [c']) x = Some v.
+Proof.
+  intros P Hc Hso Hle Hh Fr x v Hx. pose proof (sizes_pos_cap _ P) as Hcap. pose proof (lenZ_nonneg bs) as Hb.
+  unfold over. destruct (Z.leb_spec (cap_of cs + so) x), (Z.ltb_spec x (cap_of cs + so + lenZ bs)); cbn [andb]; intros E.
+  - unfold absb. destruct (Z.ltb_spec x 0); [lia|]. rewrite (phys_app cs c' [] x) by (auto; lia).
+    specialize (Hh (Z.to_nat (x - (cap_of cs + so)))). rewrite <- E. rewrite <- Hh by (unfold lenZ in *; lia). f_equal. lia.
+  - assert (x < cap_of cs).
+    { destruct (Z.lt_ge_cases x (cap_of cs)); auto. unfold absb in E. destruct (x <? 0); [discriminate|]. rewrite (phys_none cs P x) in E by lia. discriminate. }
+    lia.
+  - assert (Hlt : x < cap_of cs).
+    { destruct (Z.lt_ge_cases x (cap_of cs)); auto. unfold absb in E. destruct (x <? 0); [discriminate|]. rewrite (phys_none cs P x) in E by lia. discriminate. }
+    destruct (phys_some cs P x ltac:(lia)) as (a & Pa). unfold absb in *. destruct (Z.ltb_spec x 0); [lia|].
+    rewrite (phys_app_l cs [c'] x a Pa). rewrite Pa in E. rewrite (Fr x a); auto.
+  - lia.
+Qed.
+
+Lemma over_split f a (l : list Z) k x : 0 <= k <= lenZ l ->
+  over f a l x = over (over f a (firstn (Z.to_nat k) l)) (a + k) (skipn (Z.to_nat k) l) x.
+Proof.
+  intros Hk. rewrite <- (firstn_skipn (Z.to_nat k) l) at 1. rewrite <- over_over_app. rewrite lenZ_firstn_ge by lia. reflexivity.
+Qed.
+
+Lemma write_block_ok h d cs al b e (data : list Z) : Inv h d cs -> dims_ok (h_dims h) = true -> total_bytes h <> 0 ->
+  0 <= esz (h_ty h) * (b - 1) -> esz (h_ty h) * (b - 1) < esz (h_ty h) * e -> esz (h_ty h) * e <= total_bytes h ->
+  esz (h_ty h) * e - esz (h_ty h) * (b - 1) <= lenZ data -> h_n h < 65535 ->
+  alloc_ok fa (mkSt h d) (WriteBlock b e data) al = true ->
+  exists h' d' cs', write_block cf fa h d al b e data = (Ok h', d') /\ Inv h' d' cs' /\
+    h_ty h' = h_ty h /\ h_dims h' = h_dims h /\
+    lenZ cs' = (if lenZ cs =? 0 then 1 else if total_bytes h >? cap_of cs then lenZ cs + 1 else lenZ cs) /\
+    cap_of cs' = (if lenZ cs =? 0 then total_bytes h else if total_bytes h >? cap_of cs then total_bytes h else cap_of cs) /\
+    (forall x v, 0 <= x ->
+       over (absb d cs) (esz (h_ty h) * (b - 1)) (firstn (Z.to_nat (esz (h_ty h) * e - esz (h_ty h) * (b - 1))) data) x = Some v ->
+       absb d' cs' x = Some v).
+Proof.
+  intros I D T H0 H1 H2 Hd Hn AO. destruct (total_bounds h D T) as (Z0 & Tb & Tm).
+  unfold alloc_ok in AO. cbn [s_h s_d] in AO. rewrite (live_extents_inv _ _ _ I), (requests_unfold _ _ _ _ I) in AO by exact Logic.I.
+  pose proof I as (N & C & PD & Dv & _ & M).
+  set (t := total_bytes h) in *. set (fb := esz (h_ty h)) in *.
+  set (sb := fb * (b - 1)) in *. set (eb := fb * e) in *. set (bb := eb - sb) in *.
+  assert (Lblk : lenZ (firstn (Z.to_nat bb) data) = bb) by (apply lenZ_firstn_ge; unfold bb; lia).
+  unfold write_block. fold t fb sb eb. unfold bytes in *. destruct (Z.eqb_spec t 0); [lia|].
+  destruct (Z.ltb_spec sb 0); [lia|]. destruct (Z.gtb_spec sb eb); [lia|]. destruct (Z.gtb_spec eb t); [lia|]. cbn [orb].
+  fold bb.
+  destruct cs as [|c [|c2 r]].
+  - (* no data yet: one chunk, only the block is written *)
+    change (lenZ []) with 0 in *. rewrite N in *. cbn [Z.eqb Z.geb Z.compare map app cap_of fold_right] in AO |- *.
+    destruct al as [|p al']; [discriminate|]. apply fresh_cons_inv in AO. destruct AO as [(Gp & Ap & _) _].
+    destruct (alloc_ok_step p al' (t + 20) d) as [R1 S1]; [unfold MAXSZ; lia|auto|].
+    unfold TAG_SIZE, DPS. replace (t + 4 + 4 + 12) with (t + 20) by ring. rewrite R1. cbn [bindR fst].
+    destruct (fresh_chunk (dclr d (addr p) (Z.to_nat (t + 20))) p t sb bb (Some data) Gp Ap Tb) as (d2 & R2 & C2 & Sz & Hh & _); try (unfold bb; lia).
+    rewrite R2. cbn [bindR]. set (c := (p, pnorm (addr p + HDR + t))) in *.
+    exists (mkHdr (h_ty h) (h_dims h) 1 p), d2, [c]. split; [reflexivity|].
+    split; [apply (inv_single (h_ty h) (h_dims h) d2 c); auto; rewrite Sz; auto|].
+    cbn [h_ty h_dims cap_of fold_right]. rewrite Sz. change (lenZ [c]) with 1.
+    split; [reflexivity|]. split; [reflexivity|]. split; [reflexivity|]. split; [lia|].
+    intros x v Hx E. change [c] with ([] ++ [c]).
+    assert (G1 : sizes_pos []) by constructor.
+    assert (G2 : 0 < csize c) by lia.
+    assert (G3 : sb + lenZ (firstn (Z.to_nat bb) data) <= csize c) by (rewrite Lblk, Sz; unfold bb; lia).
+    assert (G4 : forall y a, 0 <= y -> phys [] y = Some a -> dget d2 a = dget d a) by (intros y a _ Ey; discriminate).
+    exact (grown_abs_data d d2 [] c sb (firstn (Z.to_nat bb) data) G1 G2 H G3 Hh G4 x v Hx E).
+  - (* one chunk *)
+    change (lenZ [c]) with 1 in *. rewrite N in *. cbn [Z.eqb Pos.eqb Z.geb Z.compare Pos.compare Pos.compare_cont map app cap_of fold_right] in AO |- *.
+    rewrite Z.add_0_r in *. rewrite M. inversion C as [|? ? Hc _]; subst. inversion Dv as [|? ? Dvc _]; subst.
+    rewrite (one_chunk_size_ok d c Hc). cbn [bindO]. pose proof Hc as (_ & _ & Sc & _). set (cs0 := csize c) in *.
+    destruct (Z.gtb_spec t cs0) as [Grow|Fit].
+    + (* second chunk and table *)
+      set (btw1 := if sb <=? cs0 then Z.min bb (cs0 - sb) else 0).
+      assert (Eb1 : btw1 = Z.min bb (Z.max 0 (cs0 - sb))) by (unfold btw1; destruct (Z.leb_spec sb cs0); lia). clearbody btw1.
+      assert (Step1 : exists d1, (if sb <=? cs0 then write_data_chunk cf fa d (fst c) cs0 sb btw1 (Some data) else (Ok tt, d)) = (Ok tt, d1) /\
+                chunk_at d1 c /\ frame d d1 (in_ext c) /\
+                (forall x, 0 <= x < cs0 -> dget d1 (cstart c + HDR + x) = over (fun y => dget d (cstart c + HDR + y)) sb (firstn (Z.to_nat btw1) data) x)).
+      { destruct (Z.leb_spec sb cs0).
+        - destruct (rewrite_chunk d c sb btw1 data Hc) as (d1 & R1 & C1 & Hh1 & F1); try (fold cs0; lia).
+          fold cs0 in R1. exists d1. split; [exact R1|]. split; [exact C1|].
+          pose proof (csize_addr c) as Ecs. fold cs0 in Ecs. unfold HDR in *. split.
+          + intros x Hx. apply F1; unfold in_ext in Hx; lia.
+          + assert (Lf : lenZ (firstn (Z.to_nat btw1) data) = btw1) by (apply lenZ_firstn_ge; unfold bb in *; lia).
+            intros x Hx. unfold over. rewrite Lf.
+            destruct (Z.leb_spec sb x), (Z.ltb_spec x (sb + btw1)); cbn [andb].
+            * specialize (Hh1 (Z.to_nat (x - sb))). rewrite <- Hh1 by (unfold lenZ in Lf; lia). f_equal. lia.
+            * apply F1; lia.
+            * apply F1; lia.
+            * lia.
+        - exists d. split; [reflexivity|]. split; [exact Hc|]. split; [apply frame_refl|].
+          intros x Hx. replace btw1 with 0 by lia. cbn [Z.to_nat firstn]. now rewrite over_nil. }
+      destruct Step1 as (d1 & R1 & C1 & Fr1 & E1). rewrite R1. cbn [bindR].
+      set (so := Z.max 0 (sb - cs0)). set (n2 := bb - btw1).
+      set (W := fun (d2 : disk) (p2 : ptr) =>
+                  if btw1 <? bb then write_data_chunk cf fa d2 p2 (t - cs0) so n2 (Some (skipn (Z.to_nat btw1) data))
+                  else write_data_chunk cf fa d2 p2 (t - cs0) 0 (t - cs0) (@None (list Z))).
+      assert (WS : wspec W (t - cs0)).
+      { unfold W. destruct (Z.ltb_spec btw1 bb); apply wspec_wdc; unfold so, n2, bb in *; lia. }
+      assert (Mt : (t - cs0) mod fb = 0).
+      { apply Z.mod_divide; [lia|]. apply Z.divide_sub_r; apply Z.mod_divide; auto; lia. }
+      destruct (grow1_ok (h_ty h) (h_dims h) al d1 c (t - cs0) W
+                  (fun es pt d5 => (Ok (mkHdr (h_ty h) (h_dims h) 2 pt), d5)) C1 Z0 Dvc Mt ltac:(lia) WS AO)
+        as (p2 & pt & rest & d2 & d3 & d5 & Eal & Gp2 & Ap2 & RW & S12 & S23 & S35 & Dc & Dt1 & Dt2 & Ece & GT & I5 & Sz2).
+      unfold grow1_term, W in GT. rewrite GT.
+      set (c2 := (p2, pnorm (addr p2 + HDR + (t - cs0)))) in *.
+      exists (mkHdr (h_ty h) (h_dims h) 2 pt), d5, [c; c2]. split; [reflexivity|]. split; [exact I5|].
+      cbn [h_ty h_dims cap_of fold_right]. change (lenZ [c; c2]) with 2. rewrite Sz2. fold cs0.
+      split; [reflexivity|]. split; [reflexivity|]. split; [reflexivity|]. split; [lia|].
+      pose proof (csize_addr c) as Ecs. fold cs0 in Ecs. unfold disj, ext, text in Dc, Dt1, Dt2. cbn [fst snd] in Dc, Dt1, Dt2.
+      assert (Es2 : cstart c2 = addr p2) by reflexivity.
+      (* the part of the block that went into the new chunk *)
+      assert (Part2 : btw1 < bb -> holds d5 (cstart c2 + HDR + so) (firstn (Z.to_nat n2) (skipn (Z.to_nat btw1) data))).
+      { intros Hlt. unfold W in RW. destruct (Z.ltb_spec btw1 bb); [|lia].
+        destruct (fresh_chunk d2 p2 (t - cs0) so n2 (Some (skipn (Z.to_nat btw1) data)) Gp2 Ap2) as (d3' & R3' & _ & _ & Hq3 & _); try (unfold so, n2, bb in *; lia).
+        rewrite RW in R3'. inversion R3'; subst d3'. clear R3'.
+        intros i Hi. rewrite S35; [rewrite Es2; apply Hq3; auto|]. rewrite firstn_length in Hi. unfold HDR, so, n2, bb in *. lia. }
+      intros x v Hx E.
+      rewrite (over_split _ sb (firstn (Z.to_nat bb) data) btw1) in E by (rewrite Lblk; unfold bb in *; lia).
+      rewrite firstn_firstn in E. replace (Init.Nat.min (Z.to_nat btw1) (Z.to_nat bb)) with (Z.to_nat btw1) in E by (unfold bb in *; lia).
+      change [c; c2] with ([c] ++ [c2]).
+      assert (Frame1 : forall y a, 0 <= y -> phys [c] y = Some a -> dget d5 a = dget d1 a).
+      { intros y a Hy Ey. cbn [phys] in Ey. fold cs0 in Ey. destruct (Z.ltb_spec y cs0); [|discriminate]. inversion Ey; subst a.
+        unfold HDR in *. rewrite S35, S23, S12; auto; lia. }
+      assert (Old1 : forall y, 0 <= y -> absb d1 [c] y = over (absb d [c]) sb (firstn (Z.to_nat btw1) data) y).
+      { intros y Hy. destruct (Z.lt_ge_cases y cs0).
+        - rewrite absb_first by (fold cs0; lia). rewrite E1 by lia. unfold over.
+          destruct ((sb <=? y) && (y <? sb + lenZ (firstn (Z.to_nat btw1) data))); auto. now rewrite absb_first by (fold cs0; lia).
+        - assert (Lf : lenZ (firstn (Z.to_nat btw1) data) = btw1) by (apply lenZ_firstn_ge; unfold bb in *; lia).
+          unfold over. rewrite Lf. destruct (Z.leb_spec sb y), (Z.ltb_spec y (sb + btw1)); cbn [andb]; try lia;
+          unfold absb; destruct (y <? 0); auto; cbn [phys]; fold cs0; destruct (Z.ltb_spec y cs0); try lia; reflexivity. }
+      destruct (Z.lt_ge_cases btw1 bb) as [More|Done].
+      * (* the rest of the block is in the new chunk *)
+        assert (L2 : lenZ (firstn (Z.to_nat n2) (skipn (Z.to_nat btw1) data)) = n2).
+        { apply lenZ_firstn_ge. rewrite lenZ_skipn by (unfold bb in *; lia). unfold n2, bb in *. lia. }
+        assert (G1 : sizes_pos [c]) by (constructor; [fold cs0; lia|constructor]).
+        assert (G2 : 0 < csize c2) by (rewrite Sz2; lia).
+        assert (G3 : 0 <= so) by (unfold so; lia).
+        assert (G4 : so + lenZ (firstn (Z.to_nat n2) (skipn (Z.to_nat btw1) data)) <= csize c2) by (rewrite L2, Sz2; unfold so, n2, bb in *; lia).
+        refine (grown_abs_data d1 d5 [c] c2 so (firstn (Z.to_nat n2) (skipn (Z.to_nat btw1) data)) G1 G2 G3 G4 (Part2 More) Frame1 x v Hx _).
+        cbn [cap_of fold_right]. fold cs0. rewrite Z.add_0_r.
+        replace (cs0 + so) with (sb + btw1) by (unfold so in *; lia).
+        assert (Esk : skipn (Z.to_nat btw1) (firstn (Z.to_nat bb) data) = firstn (Z.to_nat n2) (skipn (Z.to_nat btw1) data)).
+        { rewrite skipn_firstn_comm. f_equal. unfold n2. lia. }
+        rewrite <- Esk. unfold over in E |- *.
+        destruct ((sb + btw1 <=? x) && (x <? sb + btw1 + lenZ (skipn (Z.to_nat btw1) (firstn (Z.to_nat bb) data)))); auto.
+        rewrite Old1 by auto. exact E.
+      * (* the whole block was in the old chunk *)
+        assert (Ebb : btw1 = bb) by lia. rewrite Ebb in E, Old1.
+        replace (skipn (Z.to_nat bb) (firstn (Z.to_nat bb) data)) with (@nil Z) in E.
+        2:{ symmetry. apply skipn_all2. rewrite firstn_length. lia. }
+        rewrite over_nil in E. rewrite <- Old1 in E by auto.
+        assert (Hlt : x < cs0).
+        { destruct (Z.lt_ge_cases x cs0); auto. unfold absb in E. destruct (x <? 0); [discriminate|]. cbn [phys] in E. fold cs0 in E.
+          destruct (Z.ltb_spec x cs0); [lia|discriminate]. }
+        unfold absb in *. destruct (Z.ltb_spec x 0); [lia|]. cbn [app phys] in *. fold cs0 in E |- *.
+        destruct (Z.ltb_spec x cs0); [|lia]. rewrite (Frame1 x _ Hx); [exact E|]. cbn [phys]. fold cs0. destruct (Z.ltb_spec x cs0); [reflexivity|lia].
+    + (* the chunk holds the data *)
+      destruct (rewrite_chunk d c sb bb data Hc) as (d1 & R1 & C1 & Hh1 & F1); try (fold cs0; unfold bb in *; lia).
+      fold cs0 in R1. rewrite R1. cbn [bindR].
+      exists h, d1, [c]. split; [reflexivity|]. split.
+      { unfold Inv. split; [exact N|]. split; [constructor; auto|]. split; [exact PD|]. split; [constructor; auto|]. split; [auto|exact M]. }
+      cbn [cap_of fold_right]. fold cs0.
+      split; [reflexivity|]. split; [reflexivity|]. split; [reflexivity|]. split; [lia|].
+      intros x v Hx E. pose proof (csize_addr c) as Ecs. fold cs0 in Ecs. unfold HDR in *.
+      unfold over in E. rewrite Lblk in E. unfold absb in *. destruct (Z.ltb_spec x 0); [lia|]. cbn [phys] in *. fold cs0 in E |- *.
+      destruct (Z.leb_spec sb x), (Z.ltb_spec x (sb + bb)); cbn [andb] in E.
+      * destruct (Z.ltb_spec x cs0); [|unfold bb in *; lia]. rewrite <- E.
+        unfold HDR. rewrite (holds_get d1 _ _ (cstart c + 16 + x) Hh1) by (rewrite Lblk; lia). do 2 f_equal. lia.
+      * destruct (Z.ltb_spec x cs0); [|discriminate]. unfold HDR. rewrite F1; auto; lia.
+      * destruct (Z.ltb_spec x cs0); [|discriminate]. unfold HDR. rewrite F1; auto; lia.
       * lia.
+  - (* several chunks *)
+    destruct M as [Tb0 TD]. pose proof (lenZ_nonneg r) as Hr.
+    assert (L : lenZ (c :: c2 :: r) = lenZ r + 2) by (rewrite !lenZ_cons; ring).
+    remember (c :: c2 :: r) as cs eqn:Ecs0.
+    replace (h_n h >=? 2) with true in AO by (symmetry; apply Z.geb_le; lia).
+    replace (h_n h =? 0) with false in AO by (symmetry; apply Z.eqb_neq; lia).
+    replace (h_n h =? 1) with false in AO by (symmetry; apply Z.eqb_neq; lia).
+    destruct (Z.eqb_spec (h_n h) 0); [lia|]. destruct (Z.eqb_spec (h_n h) 1); [lia|].
+    rewrite (read_table_ok d (h_dc h) cs) by (auto; lia). cbn [bindO].
+    replace (firstn (Z.to_nat (h_n h)) cs) with cs by (rewrite N; symmetry; apply firstn_lenZ).
+    assert (Psz : sizes_pos cs) by (apply (Forall_chunk_sizes d); auto). pose proof (sizes_pos_cap _ Psz) as Pc.
+    destruct (wblock_loop_ok sb eb ltac:(lia) ltac:(lia) cs d 0 0 data C PD ltac:(lia) ltac:(lia)) as (d1 & R1 & C1 & F1 & A1); [fold bb; lia|].
+    cbn zeta in R1, A1. fold bb in R1, A1. rewrite Z.add_0_l, Z.sub_0_r, Z.add_0_r in *.
+    set (m := Z.min bb (Z.max 0 (cap_of cs - sb))) in *. rewrite Z.add_0_l in R1. rewrite R1. cbn [bindR].
+    rewrite L. destruct (Z.eqb_spec (lenZ r + 2) 0); [lia|].
+    assert (T1 : table_at d1 (h_dc h) cs).
+    { apply (table_at_frame d d1 _ _ (in_exts cs) Tb0 F1). intros x Hx (c' & I' & Hx').
+      rewrite Forall_forall in TD. specialize (TD (ext c') (in_map ext _ _ I')).
+      unfold disj, text, ext, in_ext in *. cbn [fst snd] in *. lia. }
+    assert (Lm : lenZ (firstn (Z.to_nat m) data) = m) by (apply lenZ_firstn_ge; unfold m, bb in *; lia).
+    destruct (Z.gtb_spec (t - cap_of cs) 0) as [Grow|Fit].
+    + (* a further chunk *)
+      replace (t >? cap_of cs) with true in AO by (symmetry; apply Z.gtb_lt; lia).
+      destruct (Z.gtb_spec t (cap_of cs)); [|lia]. rewrite Hwblock.
+      set (so := Z.max 0 (sb - cap_of cs)). set (nb2 := bb - m).
+      set (W := fun (d4 : disk) (p : ptr) =>
+                  if m <? bb then write_data_chunk cf fa d4 p (t - cap_of cs) so nb2 (Some (skipn (Z.to_nat m) data))
+                  else write_data_chunk cf fa d4 p (t - cap_of cs) 0 (t - cap_of cs) (@None (list Z))).
+      assert (WS : wspec W (t - cap_of cs)).
+      { unfold W. destruct (Z.ltb_spec m bb); apply wspec_wdc; unfold so, nb2, m, bb in *; lia. }
+      assert (Mt : (t - cap_of cs) mod fb = 0).
+      { apply Z.mod_divide; [lia|]. apply Z.divide_sub_r; [apply Z.mod_divide; auto; lia|apply divide_cap; auto]. }
+      destruct (grown_ok al d1 h cs (t - cap_of cs) W (fun cs' pt d6 => (Ok (mkHdr (h_ty h) (h_dims h) (h_n h + 1) pt), d6))
+                  N ltac:(lia) ltac:(lia) C1 PD T1 TD Z0 Dv Mt ltac:(lia) WS)
+        as (p & pt & rest & d4 & d5 & d6 & Eal & Gp & Ap & RW & Sz & F14 & S45 & S56 & Dc' & Do' & Dtc' & Ece & GT & I6).
+      { rewrite <- N. unfold DPS in AO. exact AO. }
+      unfold grown_term, W in GT. fold so nb2. rewrite GT. set (c' := (p, pnorm (addr p + HDR + (t - cap_of cs)))) in *.
+      exists (mkHdr (h_ty h) (h_dims h) (h_n h + 1) pt), d6, (cs ++ [c']). split; [reflexivity|]. split; [exact I6|].
+      cbn [h_ty h_dims]. rewrite lenZ_snoc, cap_of_app. cbn [cap_of fold_right]. rewrite Sz, L.
+      split; [reflexivity|]. split; [reflexivity|]. split; [reflexivity|]. split; [lia|].
+      assert (Es' : cstart c' = addr p) by reflexivity.
+      assert (Part2 : m < bb -> holds d6 (cstart c' + HDR + so) (firstn (Z.to_nat nb2) (skipn (Z.to_nat m) data))).
+      { intros Hlt. unfold W in RW. destruct (Z.ltb_spec m bb); [|lia].
+        destruct (fresh_chunk d4 p (t - cap_of cs) so nb2 (Some (skipn (Z.to_nat m) data)) Gp Ap) as (d5' & R5' & _ & _ & Hq5 & _); try (unfold so, nb2, m, bb in *; lia).
+        rewrite RW in R5'. inversion R5'; subst d5'. clear R5'.
+        intros i Hi. rewrite S56; [rewrite Es'; apply Hq5; auto|]. rewrite firstn_length in Hi.
+        unfold disj, ext, text in Do'. cbn [fst snd] in Do'. unfold HDR, so, nb2, m, bb in *. lia. }
+      assert (Frame1 : forall y a, 0 <= y -> phys cs y = Some a -> dget d6 a = dget d1 a).
+      { intros y a Hy Ey. destruct (phys_in cs y a Psz Hy Ey) as (c0 & I0 & B0).
+        rewrite Forall_forall in Dc', TD, Dtc'. specialize (Dc' (ext c0) (in_map ext _ _ I0)).
+        specialize (TD (ext c0) (in_map ext _ _ I0)). specialize (Dtc' (ext c0) (in_map ext _ _ I0)).
+        unfold disj, ext, text in *. cbn [fst snd] in *. unfold HDR in *. rewrite S56, S45, F14; auto; lia. }
+      intros x v Hx E.
+      rewrite (over_split _ sb (firstn (Z.to_nat bb) data) m) in E by (rewrite Lblk; unfold m, bb in *; lia).
+      rewrite firstn_firstn in E. replace (Init.Nat.min (Z.to_nat m) (Z.to_nat bb)) with (Z.to_nat m) in E by (unfold m, bb in *; lia).
+      destruct (Z.lt_ge_cases m bb) as [More|Done].
+      * assert (L2 : lenZ (firstn (Z.to_nat nb2) (skipn (Z.to_nat m) data)) = nb2).
+        { apply lenZ_firstn_ge. rewrite lenZ_skipn by (unfold m, bb in *; lia). unfold nb2, m, bb in *. lia. }
+        assert (G2 : 0 < csize c') by lia.
+        assert (G3 : 0 <= so) by (unfold so; lia).
+        assert (G4 : so + lenZ (firstn (Z.to_nat nb2) (skipn (Z.to_nat m) data)) <= csize c') by (rewrite L2, Sz; unfold so, nb2, m, bb in *; lia).
+        refine (grown_abs_data d1 d6 cs c' so (firstn (Z.to_nat nb2) (skipn (Z.to_nat m) data)) Psz G2 G3 G4 (Part2 More) Frame1 x v Hx _).
+        replace (cap_of cs + so) with (sb + m) by (unfold so, m in *; lia).
+        assert (Esk : skipn (Z.to_nat m) (firstn (Z.to_nat bb) data) = firstn (Z.to_nat nb2) (skipn (Z.to_nat m) data)).
+        { rewrite skipn_firstn_comm. f_equal. unfold nb2. lia. }
+        rewrite <- Esk. unfold over in E |- *.
+        destruct ((sb + m <=? x) && (x <? sb + m + lenZ (skipn (Z.to_nat m) (firstn (Z.to_nat bb) data)))); auto.
+        rewrite A1 by auto. exact E.
+      * assert (m = bb) by (unfold m in *; lia).
+        replace (skipn (Z.to_nat m) (firstn (Z.to_nat bb) data)) with (@nil Z) in E.
+        2:{ symmetry. apply skipn_all2. rewrite firstn_length. lia. }
+        rewrite over_nil in E. rewrite <- A1 in E by auto.
+        assert (Hlt : x < cap_of cs).
+        { destruct (Z.lt_ge_cases x (cap_of cs)); auto. unfold absb in E. destruct (x <? 0); [discriminate|]. rewrite (phys_none cs Psz x) in E by lia. discriminate. }
+        destruct (phys_some cs Psz x ltac:(lia)) as (a & Pa). unfold absb in *. destruct (Z.ltb_spec x 0); [lia|].
+        rewrite (phys_app_l cs [c'] x a Pa). rewrite Pa in E. rewrite (Frame1 x a); auto.
+    + (* the chunks hold the data *)
+      exists h, d1, cs. split; [reflexivity|].
+      assert (I1 : Inv h d1 cs).
+      { unfold Inv. split; [exact N|]. split; [exact C1|]. split; [exact PD|]. split; [exact Dv|]. split; [auto|].
+        rewrite Ecs0. rewrite <- Ecs0. split; [exact T1|exact TD]. }
+      split; [exact I1|]. destruct (Z.gtb_spec t (cap_of cs)); [lia|].
+      split; [reflexivity|]. split; [reflexivity|]. split; [reflexivity|]. split; [reflexivity|].
+      intros x v Hx E. rewrite A1 by auto. assert (Emb : m = bb) by (unfold m, bb in *; lia). rewrite Emb. exact E.
 Qed.
